@@ -2,8 +2,8 @@ import NmVerif.Index.Take
 /-
   NmVerif.Index.Compress — MODEL of include/nmtools/array/index/compress.hpp (+ view/compress.hpp).
   `compress(cond, a, axis)` is `take(a, nonzero(cond), axis)`: `shape_compress` / `compress` have the same loops as
-  `shape_take` / `take` with `indices := where(nonzero, cond)` (including the unsigned `i == axis` comparison, so a
-  negative axis matches nothing: compress.negative-axis finding).
+  `shape_take` / `take` with `indices := where(nonzero, cond)` (including the axis normalisation
+  `a < 0 ? a + len(shape) : a`, repaired: "compress.negative-axis").
 
   Stable names:
     `Index.nonzeroIdx cond : List Nat`                       index::nonzero / where(fun_nonzero, condition)
